@@ -2,6 +2,7 @@ package newrelic
 
 import (
 	"fmt"
+	"math"
 	"strconv"
 	"strings"
 
@@ -50,9 +51,9 @@ func (f *flush) addTimerMetric(n *Client, metricType string, timer gostatsd.Time
 
 		timerMetric.Value = map[string]float64{
 			"count": float64(timer.Count),
-			"sum":   timer.Sum,
-			"min":   timer.Min,
-			"max":   timer.Max,
+			"sum":   coerceToNumeric(timer.Sum),
+			"min":   coerceToNumeric(timer.Min),
+			"max":   coerceToNumeric(timer.Max),
 		}
 
 		if !n.disabledSubtypes.CountPerSecond {
@@ -167,7 +168,7 @@ func newMetricSet(n *Client, f *flush, metricName, Type string, Value float64, t
 	}
 	metricSet[n.metricType] = Type
 	metricSet[n.metricName] = metricName
-	metricSet[n.metricValue] = Value
+	metricSet[n.metricValue] = coerceToNumeric(Value)
 	n.setTags(tags, metricSet)
 
 	return metricSet
@@ -191,11 +192,24 @@ func newDimensionalMetricSet(n *Client, f *flush, metricName, Type string, Value
 		metricSet.Name = metricSet.Name + ".summary"
 	case "counter":
 		metricSet.Type = "count"
-		metricSet.Value = Value
+		metricSet.Value = coerceToNumeric(Value)
 	case "gauge":
 		metricSet.Type = Type
-		metricSet.Value = Value
+		metricSet.Value = coerceToNumeric(Value)
 	}
 
 	return metricSet
+}
+
+// coerceToNumeric converts NaN and Inf, which encoding/json refuses - failing the whole payload - to a numeric value,
+// the way the Datadog backend does. If v is a numeric, the same value is returned.
+func coerceToNumeric(v float64) float64 {
+	if math.IsNaN(v) {
+		return -1
+	} else if math.IsInf(v, 1) {
+		return math.MaxFloat64
+	} else if math.IsInf(v, -1) {
+		return -math.MaxFloat64
+	}
+	return v
 }
